@@ -33,6 +33,7 @@ ASSUMPTIONS = [
     "trailing whitespace is whatever str.rstrip removes, as in 'up to trailing whitespace'",
 ]
 
+DELETABLE = ("warmup",)
 NODE_REPS = ("0", "1", "255", "256", "-1", "", "a", " 2")
 CHILD_REPS = ("0", "1", "254", "255", "256", "-1", "", "a")
 CMD_REPS = ("0", "1", "2", "3", "4", "5", "-1", "", "a")
@@ -41,6 +42,7 @@ TYPE_REPS = ("0", "3", "4", "9", "33", "-1", "", "a")
 ODD = (
     "256", "-1", "-0", "5", "2", "", "a", "1a", "1.0", "0x1", "1e1", "--1", "true", " 1", "1 ", "01", "+1", "1_0",
     "١", "99999999999999999999", "-99999999999999999999", "255", "254", "0", "\t3", "None", "1;1",
+    "0255", "+255", "2_55", " 255", "00", "+0", "0254", "+3", "03", "+4", "004", "²", "¹", "①", "1²", "٣", "٢٥٥", "9" * 4400, "-" + "9" * 4400, "１",
 )
 ENDINGS = ("\n", "", "\r\n", " ", "\n\n", "\t\n")
 
@@ -91,10 +93,15 @@ def strategy(tier: str):
         _edited_line(),
         st.text(st.sampled_from("0123456789;;;-+ .a\n"), max_size=16),
     )
-    return st.fixed_dictionaries({"version": gen.versions, "line": lines})
+    warm = st.lists(st.one_of(gen.wellformed_message().map(gen.line_of), _grammar_line()), max_size=3)
+    return st.fixed_dictionaries({"version": gen.versions, "line": lines, "warmup": st.one_of(st.just([]), warm)})
 
 
 def enumerate_cases(tier: str):
+    for version in VERSIONS:
+        for warm in ("1;1;1;0;2;1\n", "1;1;2;0;2;\n", "1;1;0;0;3;relay\n", "1;255;3;0;0;55\n", "1;255;0;0;17;2.0\n", "1;255;4;0;0;ff\n", "junk\n"):
+            for line in ("1;5;3;0;3;\n", "255;0;3;0;4;7\n", "1;255;3;0;3;\n", "1;5;3;0;5;\n", "1;255;1;0;2;1\n", "1;5;4;0;3;ff\n", "7;5;1;0;2;1\n"):
+                yield {"version": version, "line": line, "warmup": [warm, warm]}
     versions = VERSIONS if tier == "thorough" else ("1.4", "2.2")
     reps = (NODE_REPS, CHILD_REPS, CMD_REPS, ACK_REPS, TYPE_REPS)
     for version in versions:
@@ -127,6 +134,12 @@ def run_case(case: dict) -> Outcome:
 
     schema = MessageSchema()
     schema.set_protocol(get_protocol(version))
+    for warm in case.get("warmup", ()):
+        # the codec must be stateless: what a long-lived schema decoded before may not matter
+        try:
+            schema.load(warm)
+        except Exception:  # noqa: BLE001
+            pass
     try:
         loaded = schema.load(line)
         load_status = "ok"
@@ -141,6 +154,8 @@ def run_case(case: dict) -> Outcome:
 
     async def via_gateway():
         gateway, _transport = env.make_gateway(version)
+        for warm in case.get("warmup", ()):
+            await env.rx(gateway, warm)
         return await env.rx(gateway, line)
 
     gw_status, gw_val = env.run(via_gateway())
@@ -185,6 +200,8 @@ def run_case(case: dict) -> Outcome:
     # accepted: literal decode
     got = env.msg_fields(loaded)
     for name, want, have in zip(("node", "child", "command", "ack", "type"), ref["values"], got[:5]):
+        if want is None:
+            continue
         if have != want or type(have) is not int:
             return fail(f"misdecoded:{name}", f"load({line!r}) decoded {name}={have!r}, spelled {want}", classes=classes)
     if not payload_matches(ref["rest"], got[5]):
@@ -194,7 +211,7 @@ def run_case(case: dict) -> Outcome:
         converting_handler = cmd == 3 or (cmd == 0 and child == 255 and node == 0)  # payload checked by a handler
         if gw_invalid and not converting_handler:
             return fail("listen-rejects-wellformed", f"listen on {line!r}: {gw_val!r}", classes=classes)
-        if gw_status == "ok" and env.msg_fields(gw_val)[:5] != ref["values"]:
+        if gw_status == "ok" and None not in ref["values"] and env.msg_fields(gw_val)[:5] != ref["values"]:
             return fail("listen-misdecoded", f"listen on {line!r} yielded {env.msg_fields(gw_val)}", classes=classes)
     elif ref["rule"] != "ok":
         # grey spelling but the int values violate a rule: being accepted is still wrong
